@@ -26,7 +26,7 @@ CHECKS.update({
  'C04': ('model_checking', '18 key-tuple alphabets plus a pairwise collision search over separator/escape/marker characters (2 and 3 columns) (separator-like strings, NULL marker text, empty string, NULL, missing, numbers, upper(k); 0..3 columns) x 4 window kinds x all row sequences of length<=4/5, multi-argument function keys, mixed-case column names, TriggerWindow() with several groups open, grouping columns from a joined table or below the stream alias (2-4 path segments) with their output names, the window written first with LIMIT directly after the last column; delivered (group,ids) multiset must equal the typed-tuple reference grouping', 'DESIGN.md 3/C04', SEQ_NOTE, DET),
  'C08': ('model_checking', 'as C01 for sliding windows: 5 size/slide pairs (dividing, not dividing, equal, slide>size) x MAXOUTOFORDERNESS x feed policy (also a 36 h jump of event time, strategy block with a lagging consumer, bursts of 160/320 in-order events) against ref.Sliding, plus schedule exploration of the window object', 'DESIGN.md 3/C08', SEQ_NOTE + '; ' + SCHED_NOTE, DET + ' + stateless schedule DFS on the window object'),
  'C09': ('model_checking', 'all key sequences (length<=7/9 over 3 keys, canonical) x N x 1|2 grouping columns (incl. tuples with a missing column) x eager|lazy feed, with pauses of 1.5 s/25 s virtual time without/with STATETTL, function-expression and mixed-spelling keys, strategy block with a one-batch output buffer and a lagging consumer, statistics calls between rows, a panicking synchronous sink in front of the observing one, a nested-path key, float64 keys beyond float32 precision, colliding key tuples, against the per-key batching reference, plus all schedules (<=1/2 deviations) of producer, processor, counting-window goroutine and consumer for fixed sequences', 'DESIGN.md 3/C09', SEQ_NOTE + '; ' + SCHED_NOTE, DET + ' + stateless schedule DFS of the full pipeline'),
- 'C10': ('model_checking', 'all per-key timestamp sequences (length<=4/5 over gaps below/at/above the timeout and out-of-order arrivals) x timeout x MAXOUTOFORDERNESS x 1..2 keys under both extreme feed policies (also strategy block with a lagging consumer, a 36 h gap, present-day float64 timestamps, a nested-path key, the timeout written as 2 / '2' / '2s'), a pairwise group-key identity search and key tuples colliding under join-with-a-middle and faulty-escaping encoders (NULL, missing, the empty text, marker-like texts); oracle = the stated session constraints and eager==lazy for in-order input', 'DESIGN.md 3/C10', SEQ_NOTE, DET + ' under two feed schedules'),
+ 'C10': ('model_checking', 'all per-key timestamp sequences (length<=4/5 over gaps below/at/above the timeout and out-of-order arrivals) x timeout x MAXOUTOFORDERNESS x 1..2 keys under both extreme feed policies (also strategy block with a lagging consumer, a 36 h gap, present-day float64 timestamps, a nested-path key, the timeout written as a bare or quoted number of seconds), a pairwise group-key identity search and key tuples colliding under join-with-a-middle and faulty-escaping encoders (NULL, missing, the empty text, marker-like texts); oracle = the stated session constraints and eager==lazy for in-order input', 'DESIGN.md 3/C10', SEQ_NOTE, DET + ' under two feed schedules'),
 })
 
 CHECKS.update({
